@@ -132,7 +132,12 @@ def specs():
     def stamps(r):
         import datetime as _dt
         import numpy as _np
-        k_ = r.randrange(6)
+        k_ = r.randrange(8)
+        if k_ >= 6:
+            # a relative clock counted from datetime.min / down from datetime.max: legal datetime stamps at the ends of the range
+            e_ = _dt.timedelta(seconds=r.choice((0, 1, 5, 3600, 86000)))
+            b_ = _dt.datetime.min + e_ if k_ == 6 else _dt.datetime.max - e_ - _dt.timedelta(seconds=3)
+            return (b_, b_ + _dt.timedelta(seconds=3)) if r.random() < 0.5 else (b_ + _dt.timedelta(seconds=2), b_)
         if k_ < 2:
             return (r.choice((1, 3)), 2)
         if k_ == 2:
